@@ -155,7 +155,7 @@ impl Prop for C11 {
         // a refused event is not on the wire, neither then nor later; the others go out exactly once
         for s in seqs.iter().filter(|s| s.len() <= 2 && !s.contains(&Ev::Bitmap)) {
             for pos in 0..s.len() {
-                for kind in 0..3u8 {
+                for kind in 0..4u8 {
                     let mut e = s.clone();
                     e.insert(pos, Ev::FailNextWrite(kind));
                     // and something after it, so that a frame kept back would show up
@@ -167,7 +167,7 @@ impl Prop for C11 {
         // F2: the transport takes a part of the frame (1, 4, 7, 20, 40 bytes) and then refuses once, on the last event of
         // every sequence of <= 2 sendable events: Ok means exactly one whole PDU, Err means nothing but that prefix
         for s in seqs.iter().filter(|s| s.len() <= 2 && !s.contains(&Ev::Bitmap)) {
-            for kind in 0..3u8 {
+            for kind in 0..4u8 {
                 for off in [1usize, 4, 7, 20, 40] {
                     let mut e = s.clone();
                     let last = e.pop().unwrap();
@@ -218,7 +218,7 @@ impl Prop for C11 {
         json!({"idx": idx, "block": c.block, "user_id": c.user_id, "share_id": c.share_id, "n_events": c.events.len(), "events": c.events.iter().take(8).collect::<Vec<_>>()})
     }
     fn rule(&self) -> String {
-        "cases = event sequences submitted through RdpClient::write on a really activated client (raw stack), decoded by the reference peer. [all-x/all-y/all-scancodes] every value 0..65535 of x, y and scancode (batches of 64 events, order checked); [buttons] 4 buttons x 2 press states x 5x5 boundary coordinates; [sequences] every sequence of <=3 (<=5 in thorough) events over a 9-letter alphabet incl. an unsendable kind, alone and with one server PDU (fast-path bitmap, set-error-info, unknown data PDU, a demand-active or a confirm-active arriving in the active state, an indication on the user channel or on another static channel, data PDUs naming share id 0 / another share id) interleaved at every position; [refused-write] one write refused by the transport (WouldBlock / TimedOut / Other, before its first byte) at every position of every sequence of <=2 events; [write-refused-inside-the-frame] the transport takes 1..40 bytes of the frame of the last event and then refuses once: Ok only with exactly one whole PDU on the wire, Err only with that prefix; [long-session] 300 and 70 000 events on one client with a server PDU every 97 events; [identifiers] server-assigned user ids x share ids; [entry-point-x-capabilities-x-transport] a probe sequence (incl. the unsendable kind through write and try_write, a repeated pointer move) through write / try_write x 5 server capability lists (Windows, minimal, input capability without the scancode flag, no input capability, unknown sets) x a transport accepting 1..48 bytes per write; every sequence of <=2 events through try_write, and with the no-scancode-flag list on a 3-byte transport; [after-reactivation] every sequence of <=2 events after a deactivate-all and a second activation with another / the same share id (3 base share ids), also with server finalization PDUs that name the previous share or share 0: the PDUs name the share of the last demand-active; and after a re-activation during which a write and a try_write were attempted after every read (refused / ignored, nothing sent then or later). Non-trivial: >= 2 events or non-default identifiers.".into()
+        "cases = event sequences submitted through RdpClient::write on a really activated client (raw stack), decoded by the reference peer. [all-x/all-y/all-scancodes] every value 0..65535 of x, y and scancode (batches of 64 events, order checked); [buttons] 4 buttons x 2 press states x 5x5 boundary coordinates; [sequences] every sequence of <=3 (<=5 in thorough) events over a 9-letter alphabet incl. an unsendable kind, alone and with one server PDU (fast-path bitmap, set-error-info, unknown data PDU, a demand-active or a confirm-active arriving in the active state, an indication on the user channel or on another static channel, data PDUs naming share id 0 / another share id) interleaved at every position; [refused-write] one write refused by the transport (WouldBlock / TimedOut / Other / Interrupted, before its first byte) at every position of every sequence of <=2 events; [write-refused-inside-the-frame] the transport takes 1..40 bytes of the frame of the last event and then refuses once (the same four kinds; after Interrupted the standard library calls again): Ok only with exactly one whole PDU on the wire, Err only with that prefix; [long-session] 300 and 70 000 events on one client with a server PDU every 97 events; [identifiers] server-assigned user ids x share ids; [entry-point-x-capabilities-x-transport] a probe sequence (incl. the unsendable kind through write and try_write, a repeated pointer move) through write / try_write x 5 server capability lists (Windows, minimal, input capability without the scancode flag, no input capability, unknown sets) x a transport accepting 1..48 bytes per write; every sequence of <=2 events through try_write, and with the no-scancode-flag list on a 3-byte transport; [after-reactivation] every sequence of <=2 events after a deactivate-all and a second activation with another / the same share id (3 base share ids), also with server finalization PDUs that name the previous share or share 0: the PDUs name the share of the last demand-active; and after a re-activation during which a write and a try_write were attempted after every read (refused / ignored, nothing sent then or later). Non-trivial: >= 2 events or non-default identifiers.".into()
     }
     fn assumptions(&self) -> Vec<String> {
         vec![
@@ -341,14 +341,14 @@ impl Prop for C11 {
                     let mut sh = conn.sh.borrow_mut();
                     let pos = sh.from_client.len();
                     sh.write_seq_pos = 0;
-                    sh.write_plan = crate::memlink::WritePlan::ErrOnceAt { pos, kind: [std::io::ErrorKind::WouldBlock, std::io::ErrorKind::TimedOut, std::io::ErrorKind::Other][*kind as usize % 3] };
+                    sh.write_plan = crate::memlink::WritePlan::ErrOnceAt { pos, kind: [std::io::ErrorKind::WouldBlock, std::io::ErrorKind::TimedOut, std::io::ErrorKind::Other, std::io::ErrorKind::Interrupted][*kind as usize % 4] };
                     fail_pending = true;
                 }
                 Ev::FailInsideNextWrite(kind, off) => {
                     let mut sh = conn.sh.borrow_mut();
                     let pos = sh.from_client.len() + off;
                     sh.write_seq_pos = 0;
-                    sh.write_plan = crate::memlink::WritePlan::ErrOnceAt { pos, kind: [std::io::ErrorKind::WouldBlock, std::io::ErrorKind::TimedOut, std::io::ErrorKind::Other][*kind as usize % 3] };
+                    sh.write_plan = crate::memlink::WritePlan::ErrOnceAt { pos, kind: [std::io::ErrorKind::WouldBlock, std::io::ErrorKind::TimedOut, std::io::ErrorKind::Other, std::io::ErrorKind::Interrupted][*kind as usize % 4] };
                     fail_pending = true;
                 }
                 Ev::Server(k) => {
